@@ -552,3 +552,74 @@ def buffer_dtype_rule(ctx, rule: str, funcs: Sequence[str], stringish: Sequence[
                 what = "an integer array: fractional values stored into it are cut off" if kind == "int" else "a fixed-width string array (as wide as the first value): longer strings stored into it are cut off"
                 ctx.rep.refuted(rule, f"{f.qualname}/{buf}", f"`{stmt_key(n.ast)[:60]}` creates {what} - and `{stmt_key(m.ast)[:50]}` stores other values into it", where=f.where(m.ast))
     return n_sites
+
+
+# ----------------------------------------------------------------------------- None-able parameter in `+` with text
+def _stringy(fv, e: ast.AST, at: int, depth: int = 0) -> bool:
+    if isinstance(e, ast.JoinedStr) or (isinstance(e, ast.Constant) and isinstance(e.value, str)):
+        return True
+    if isinstance(e, ast.BinOp) and isinstance(e.op, ast.Add):
+        return _stringy(fv, e.left, at, depth + 1) or _stringy(fv, e.right, at, depth + 1)
+    if isinstance(e, ast.Name) and depth < 4:
+        raw, at2 = fv.def_expr(e, at)
+        if raw is not e:
+            return _stringy(fv, raw, at2, depth + 1)
+    return False
+
+
+def none_concat_rule(ctx, rule: str, shorts: Sequence[str], what: str) -> None:
+    """`<text> + p` raises TypeError when `p` is None. For the listed entry points (with new helpers expanded into them):
+    a parameter whose default is None (or that is annotated Optional) is never an operand of `+` with text unless a
+    must-hold fact at that statement excludes None (`p is not None`, `p` truthy, isinstance(p, str))."""
+    n_sites = 0
+    for short in shorts:
+        f = ctx.prog.func_by_short(short) if hasattr(ctx.prog, "func_by_short") else None
+        if f is None:
+            cands = [g for g in ctx.prog.all_functions() if g.short == short]
+            f = cands[0] if cands else None
+        if f is None:
+            ctx.rep.inconclusive(rule, short, "function not found")
+            continue
+        fv = ctx.fv(f, f.cls)
+        ctx.rep.touch(f)
+        noneable = set()
+        a = f.node.args
+        for arg in a.posonlyargs + a.args + a.kwonlyargs:
+            d = f.param_default(arg.arg)
+            ann = ast.unparse(arg.annotation) if arg.annotation is not None else ""
+            if (isinstance(d, ast.Constant) and d.value is None) or "Optional" in ann or "None" in ann:
+                noneable.add(arg.arg)
+        for node in fv.cfg.nodes:
+            if node.kind not in ("stmt", "test") or node.ast is None:
+                continue
+            for sub in own_walk(node.ast):
+                if not (isinstance(sub, ast.BinOp) and isinstance(sub.op, ast.Add)):
+                    continue
+                for me, other in ((sub.left, sub.right), (sub.right, sub.left)):
+                    if not isinstance(me, ast.Name):
+                        continue
+                    root = fv.alias_root(me, node.id)
+                    if not (isinstance(root, ast.Name) and root.id in noneable and root.id in f.params):
+                        continue
+                    # the name still denotes the caller's value here (no re-definition reaches this statement)
+                    defs = fv.cfg.reaching()[node.id].get(root.id, frozenset())
+                    if root is me and any(fv.cfg.nodes[d].kind != "entry" for d in defs):
+                        continue
+                    if not _stringy(fv, other, node.id):
+                        continue
+                    n_sites += 1
+                    safe = False
+                    for r, pol, raw in fv.rfacts_at(node.id):
+                        core, p = r, pol
+                        while isinstance(core, ast.UnaryOp) and isinstance(core.op, ast.Not):
+                            core, p = core.operand, not p
+                        if isinstance(core, ast.Compare) and len(core.ops) == 1 and is_name(core.left, root.id) and isinstance(core.comparators[0], ast.Constant) and core.comparators[0].value is None:
+                            if (isinstance(core.ops[0], (ast.IsNot, ast.NotEq)) and p) or (isinstance(core.ops[0], (ast.Is, ast.Eq)) and not p):
+                                safe = True
+                        elif is_name(core, root.id) and p:
+                            safe = True
+                        elif isinstance(core, ast.Call) and call_fname(core) == "isinstance" and core.args and is_name(core.args[0], root.id) and p:
+                            safe = True
+                    ctx.rep.check(safe, rule, f"{f.qualname}/{stmt_key(sub)[:50]}", f"`{root.id}` cannot be None here",
+                                  f"`{ast.unparse(sub)[:70]}` joins text with `{root.id}`, which is None by default: the call raises TypeError instead of {what}", where=f.where(node.ast))
+    ctx.rep.holds(rule, "sites", f"{n_sites} `text + <None-able parameter>` site(s) examined")
